@@ -271,3 +271,5 @@ def run(ctx):
     boundaries.check_writes(ctx, 'C01.RW', 'C01')
     boundaries.check_guards(ctx, 'C01.RG', 'C01')
     boundaries.check_calls(ctx, 'C01.RC', 'C01')
+    from .. import boundaries as _b
+    _b.check_predicates(ctx, 'C01.RP', 'C01')
